@@ -156,7 +156,7 @@ var loopIgnored = map[string]bool{
 
 // calls that are events of the model
 var loopEvents = map[string]string{
-	"recv": "recv", "cs.StartTag": "StartTag", "cs.TagDone": "TagDone", "cs.handle": "handle",
+	"recv": "recv", "recvFrame": "recv", "cs.StartTag": "StartTag", "cs.TagDone": "TagDone", "cs.handle": "handle",
 	"cs.ClearTag": "ClearTag", "send": "send", "msgDotLRegistry.put": "put",
 }
 
